@@ -7,7 +7,7 @@ LEAN_MODULE = "Sb.Properties.C02"
 THEOREMS = [
     "Sb.C02.opcodes_match_format", "Sb.C02.timing_constants", "Sb.C02.loopBegin_depth", "Sb.C02.loopEnd_depth",
     "Sb.C02.loopBegin_full", "Sb.C02.loopEnd_cases", "Sb.C02.pyro_mask", "Sb.C02.lerpChan_zero", "Sb.C02.lerpChan_one",
-    "Sb.C02.lerpChan_le", "Sb.C02.ended_held", "Sb.C02.execCommand_ended",
+    "Sb.C02.lerpChan_le", "Sb.C02.ended_held", "Sb.C02.execCommand_ended", "Sb.C02.step_total",
 ]
 ASSUMPTIONS = ["no signal source attached (the C API offers none): channel commands yield black, triggers never fire",
                "inside a fade a channel may differ by less than one unit (+2^-10 float slack) from exact linear interpolation"]
